@@ -80,12 +80,15 @@ def cases(ctx, big=False):
     n = len(prod) if (big or not ctx.quick()) else 260
     for i, (esc, hw, rend, pi, chan, outf) in enumerate(prod[:n]):
         doc = DOCS[(i + ctx.seed) % len(DOCS)] if ctx.rng.random() < 0.8 else (gen.md_any(ctx.rng, 5).replace("\x00", "") or "x")
-        if chan == "-m" and doc.startswith("-"):
+        # (a message that starts with "-" and has no blank is taken for an option by argparse: known finding, exercised below)
+        if chan == "-m" and doc.startswith("-") and not any(c in doc for c in " \t\n"):
             doc = "x " + doc
         out.append(dict(escape=esc, hardwrap=hw, renderer=rend, plugins=PLUGIN_SETS[pi], chan=chan, outfile=outf, doc=doc))
     # special cases: -m together with -f, empty message with stdin, nothing at all
     out.append(dict(escape=False, hardwrap=False, renderer="html", plugins=None, chan="-m+-f", outfile=False, doc="both **given**"))
     out.append(dict(escape=True, hardwrap=False, renderer="html", plugins=None, chan="none", outfile=False, doc=""))
+    for doc in ("---", "-x", "- item\n- two", "-", "--help me", "@file"):
+        out.append(dict(escape=True, hardwrap=False, renderer="html", plugins=None, chan="-m", outfile=False, doc=doc))
     return out
 
 
@@ -135,6 +138,9 @@ def compare(ctx, res, plan):
     if isinstance(text, tuple):
         if res["rc"] == 0:
             ctx.fail(sig, "library raises %s for the equivalent configuration but the CLI exits 0 with %r" % (text[1], res["stdout"][:80]), rep)
+        return
+    if res["rc"] != 0 and case["chan"] == "-m" and case["doc"].startswith("-") and "expected one argument" in (res["stderr"] or ""):
+        ctx.fail("cli-error:message-starting-with-dash", "python -m mistune -m %r exits %d (%s) where the library returns %r" % (case["doc"], res["rc"], (res["stderr"] or "").strip().split("\n")[-1][:100], text[:60]), rep)
         return
     if res["rc"] != 0:
         ctx.fail(sig, "CLI failed (exit %d: %s) where the library returns %r" % (res["rc"], res["stderr"], text[:80]), rep)
